@@ -260,7 +260,7 @@ pub fn run(ctx: &mut Ctx) {
 	ctx.assume("expressible sets only: dst(nested X) = (dst(P) or src(P)) + '$' + simple when the source parent P is in the set; a constructor's target name is treated as absent");
 	ctx.assume("names contain no whitespace or '#', targets do not start with 'ACC:'; comments contain no TAB/VT/FF/CR");
 	ctx.assume("top-level file names (target name, else source name) are distinct");
-	ctx.run_sub("stream", ctx.tier.pick(32000, 1000000), || strategy(false), stream);
-	ctx.run_sub("stream_outer_absent", ctx.tier.pick(16000, 600000), || strategy(true), stream);
-	ctx.run_sub("directory", ctx.tier.pick(2400, 60000), || strategy(true), directory);
+	ctx.run_sub("stream", ctx.tier.pick(96000, 1000000), || strategy(false), stream);
+	ctx.run_sub("stream_outer_absent", ctx.tier.pick(48000, 600000), || strategy(true), stream);
+	ctx.run_sub("directory", ctx.tier.pick(7200, 60000), || strategy(true), directory);
 }
